@@ -40,6 +40,8 @@ module Nat :
  sig
   val pred : nat -> nat
 
+  val eqb : nat -> nat -> bool
+
   val leb : nat -> nat -> bool
 
   val ltb : nat -> nat -> bool
@@ -103,7 +105,11 @@ module Coq_Pos :
 
 module N :
  sig
+  val compare : n -> n -> comparison
+
   val eqb : n -> n -> bool
+
+  val ltb : n -> n -> bool
  end
 
 module Z :
@@ -196,6 +202,10 @@ val qmult : q -> q -> q
 val qopp : q -> q
 
 val qminus : q -> q -> q
+
+val qinv : q -> q
+
+val qdiv : q -> q -> q
 
 val qlt_le_dec : q -> q -> bool
 
@@ -443,3 +453,47 @@ val get_infected : graph -> q -> q -> node list -> node list -> node list samp
 val get_infected_det :
   graph -> (node -> node -> xtime) -> (node -> xtime) -> node list -> node
   list -> node list
+
+val qfloor : q -> z
+
+type 'a bsamp =
+| BRet of 'a
+| BFail of err
+| BExpo of q * (q -> 'a bsamp)
+| BSample of key list * nat * (key list -> 'a bsamp)
+| BBinom of nat * q * xtime * (nat -> 'a bsamp)
+
+val bbind : 'a1 bsamp -> ('a1 -> 'a2 bsamp) -> 'a2 bsamp
+
+type bcall =
+| BCExpo of q
+| BCSample of key list * nat
+| BCBinom of nat * q * xtime
+
+val binom_possible : nat -> q -> xtime -> nat -> bool
+
+val bexec : 'a1 bsamp -> q list -> bcall list -> 'a1 result * bcall list
+
+val trunc_exp : q -> xtime -> q result
+
+val ninsert : n -> n list -> n list
+
+val nsort : n list -> n list
+
+type bprovider = node -> node list -> ((node * xtime) list * xtime) bsamp
+
+val draw_trunc :
+  q -> xtime -> node list -> (node * xtime) list -> ((node * xtime) list ->
+  'a1 bsamp) -> 'a1 bsamp
+
+val const_provider : graph -> q -> q -> bprovider
+
+val blift : 'a1 result -> ('a1 -> 'a2 bsamp) -> 'a2 bsamp
+
+val bgloop :
+  graph -> q -> xtime -> bprovider -> bool -> nat -> nat -> est ->
+  (simout * (node * node option) list) bsamp
+
+val fast_sir_const :
+  graph -> q -> q -> node list option -> node list option -> q option -> q ->
+  xtime -> bool -> nat -> (simout * (node * node option) list) bsamp
